@@ -209,6 +209,42 @@ def record_obligations(rep: Report, ai: Absint, rule: str, kinds: Optional[Set[s
     return ok, bad, skipped
 
 
+def timer_armers(prog: Program, n: str) -> Dict[str, str]:
+    """Call texts that leave SCTP timer T<n> running when they return: the starter, the restarter and any "ensure running" wrapper of the
+    transport class whose body is nothing but `if not self._tN_handle: <armer>()` / `<armer>()`.  value: 'guarded' (safe when the timer may be
+    running: restart, or a wrapper that checks the handle) or 'raw' (the starter itself, whose assert needs the handle to be clear)."""
+    import ast
+    T = "rtcsctptransport.RTCSctpTransport"
+    out = {f"self._t{n}_start": "raw"}
+    if prog.find_method(prog.cls(T), f"_t{n}_restart") is not None:
+        out[f"self._t{n}_restart"] = "guarded"
+    tests = (f"not self._t{n}_handle", f"self._t{n}_handle is None")
+    changed = True
+    while changed:
+        changed = False
+        for fi in prog.cls(T).methods.values():
+            nm = f"self.{fi.name}"
+            if nm in out or fi.name.startswith(f"_t{n}_") and fi.name.endswith(("_start", "_restart", "_cancel", "_expired")):
+                continue
+            body = [s for s in fi.node.body if not (isinstance(s, ast.Expr) and isinstance(s.value, ast.Constant))]
+            if not body:
+                continue
+            kinds = []
+            for s in body:
+                if isinstance(s, ast.Expr) and isinstance(s.value, ast.Call) and unparse(s.value.func) in out and not s.value.args:
+                    kinds.append(out[unparse(s.value.func)])
+                elif isinstance(s, ast.If) and unparse(s.test) in tests and not s.orelse and len(s.body) == 1 and isinstance(s.body[0], ast.Expr) \
+                        and isinstance(s.body[0].value, ast.Call) and unparse(s.body[0].value.func) in out:
+                    kinds.append("guarded")
+                else:
+                    kinds = None
+                    break
+            if kinds:
+                out[nm] = "guarded" if all(k == "guarded" for k in kinds) else "raw"
+                changed = True
+    return out
+
+
 def timer_rule(rep: Report, prog: Program, PROP: str, RULE: str) -> None:
     """Typestate rule for the SCTP timer starters (their `assert handle is None` is an assertion over local state that the
     facts domain cannot carry across an await): cancel or handle-is-None guard on every path before each start."""
@@ -221,8 +257,18 @@ def timer_rule(rep: Report, prog: Program, PROP: str, RULE: str) -> None:
     T = "rtcsctptransport.RTCSctpTransport"
     FIRST_ARM = {f"{T}._init": "called exactly once, from start() under the __started latch, before any other T1 user can run"}
     starters = {f"self._t{n}_start": str(n) for n in (1, 2, 3)}
+    # "ensure running" wrappers: a call to one is a start site that carries its own handle check
+    wrappers: Dict[str, str] = {}
+    for n_ in ("1", "2", "3"):
+        for nm_, kind_ in timer_armers(prog, n_).items():
+            if kind_ == "guarded" and not nm_.endswith("_restart"):
+                wrappers[nm_] = n_
     n_sites = 0
     for fi in prog.cls(T).methods.values():
+        for n in walk_no_nested(fi.node):
+            if isinstance(n, ast.Call) and unparse(n.func) in wrappers and f"self.{fi.name}" not in wrappers:
+                n_sites += 1
+                rep.ok(RULE, f"{fi.qualname}: {unparse(n)[:60]} @ line {n.lineno}", sample=f"wrapper that checks the T{wrappers[unparse(n.func)]} handle before starting")
         if fi.name.endswith("_expired") or not any(isinstance(n, ast.Call) and unparse(n.func) in starters for n in walk_no_nested(fi.node)):
             continue
 
@@ -232,7 +278,7 @@ def timer_rule(rep: Report, prog: Program, PROP: str, RULE: str) -> None:
                 for n in ("1", "2", "3"):
                     if nm == f"self._t{n}_cancel":
                         return [f"t{n}-clear"]
-                    if nm == f"self._t{n}_start":
+                    if nm == f"self._t{n}_start" or wrappers.get(nm) == n:
                         return [f"-t{n}-clear"]
             return []
         sites = []
@@ -472,3 +518,173 @@ def close_all_channels_rule(rep: Report, prog: Program, PROP: str, RULE: str) ->
             rep.fail(mk_finding(prog, PROP, RULE, ss, closed_branch[0] if closed_branch else ss.node,
                                 f"data channels can be held in {cont} ({where}) but closing the association does not close the channels found there: a channel created "
                                 f"shortly before close() (it has no id yet) stays `connecting` for ever", construct=f"channels in {cont} not closed"))
+
+
+# ---------------------------------------------------------------------------------------------------------------------------------------
+# Optional fields in arithmetic (rule C05-NONE)
+NONE_ARITH_MODULES = {"rtcsctptransport", "rtcrtpsender", "rtcrtpreceiver", "rate", "jitterbuffer", "rtcdtlstransport", "rtp"}
+# (function, field): why the field cannot be None there although no guard in the function says so
+NONE_ARITH_EXEMPT = {
+    ("jitterbuffer.JitterBuffer._remove_frame", "_origin"): "private helper, only called by add() after it has assigned _origin (rule C10-EXC analyses add() with that invariant)",
+    ("jitterbuffer.JitterBuffer.remove", "_origin"): "private helper, only called by add() / smart_remove() after add() has assigned _origin",
+    ("jitterbuffer.JitterBuffer.smart_remove", "_origin"): "private helper, only called by add() after it has assigned _origin",
+    ("rtcrtpreceiver.StreamStatistics.add", "_last_arrival"): "read only when packets_received > 1; the first add() is always in order (max_seq is None) and assigns _last_arrival",
+    ("rtcrtpreceiver.StreamStatistics.packets_expected", "max_seq"): "a StreamStatistics is stored in __remote_streams together with its first add(), which assigns max_seq and base_seq "
+                                                                       "(rule C18-REPORT evaluates the report built from it)",
+    ("rtcrtpreceiver.StreamStatistics.packets_expected", "base_seq"): "see max_seq",
+    ("rtcsctptransport.RTCSctpTransport._send_sack", "_last_received_tsn"): "_send_sack() runs only while _sack_needed, which implies _last_received_tsn is not None (guard-implication checked at every "
+                                                                            "writer by C05-EXC)",
+}
+
+
+def none_arith_rule(rep: Report, prog: Program, PROP: str, RULE: str) -> None:
+    """A field that __init__ sets to None and that is an operand of an arithmetic operator on the receive path needs a reason not to be None there:
+    a guard on the field itself, the assign-if-None idiom before the use, a short-circuit operand, or a guard on a *paired* sibling - a field that is
+    also initialised to None and only ever assigned a value in the same block as the field (`self.__lsr == report.lsr` protects `self.__lsr_time`
+    because `None == <int>` is false and both are assigned together).  Anything else would raise TypeError out of the receive loop."""
+    import ast
+    from engine.events import EventsDomain
+    from engine.index import walk_no_nested
+    rep.rule(RULE, "Optional fields used in arithmetic on the receive path are guarded (directly, by the assign-if-None idiom or through a paired sibling field)", min_instances=12)
+
+    def self_attr(t):
+        return t.attr if isinstance(t, ast.Attribute) and isinstance(t.value, ast.Name) and t.value.id == "self" else None
+
+    def targets_of(s):
+        tg = s.targets if isinstance(s, ast.Assign) else [s.target]
+        out = []
+        for t in tg:
+            out.extend(t.elts if isinstance(t, ast.Tuple) else [t])
+        return out
+
+    def is_none_store(s):
+        return isinstance(s, (ast.Assign, ast.AnnAssign)) and isinstance(s.value, ast.Constant) and s.value.value is None
+
+    def blocks(node):
+        for n in ast.walk(node):
+            for name in ("body", "orelse", "finalbody"):
+                b = getattr(n, name, None)
+                if isinstance(b, list) and b and isinstance(b[0], ast.stmt):
+                    yield b
+    used_exempt = set()
+    n_sites = 0
+    for ci in prog.classes.values():
+        if ci.module.name not in NONE_ARITH_MODULES:
+            continue
+        init = prog.find_method(ci, "__init__")
+        if init is None:
+            continue
+        nf = set()
+        for n in walk_no_nested(init.node):
+            if is_none_store(n):
+                nf |= {self_attr(t) for t in targets_of(n) if self_attr(t)}
+        if not nf:
+            continue
+        stores: Dict[str, List[Tuple[Any, Any, Any]]] = {f: [] for f in nf}
+        for fi in ci.methods.values():
+            if fi.name == "__init__":
+                continue
+            for blk in blocks(fi.node):
+                for s in blk:
+                    if isinstance(s, (ast.Assign, ast.AnnAssign, ast.AugAssign)) and getattr(s, "value", None) is not None:
+                        for t in targets_of(s):
+                            if self_attr(t) in nf:
+                                stores[self_attr(t)].append((fi, s, blk))
+
+        def paired(X, Y):
+            """Y has a value  =>  X has a value"""
+            for fi, s, blk in stores[Y]:
+                if not is_none_store(s) and not any(f2 is fi and b2 is blk and not is_none_store(s2) for f2, s2, b2 in stores[X]):
+                    return False
+            for fi, s, blk in stores[X]:
+                if is_none_store(s) and not any(f2 is fi and b2 is blk and is_none_store(s2) for f2, s2, b2 in stores[Y]):
+                    return False
+            return True
+        for fi in ci.methods.values():
+            sites = []
+            parents: Dict[int, ast.AST] = {}
+            for p_ in ast.walk(fi.node):
+                for ch in ast.iter_child_nodes(p_):
+                    parents[id(ch)] = p_
+            for n in walk_no_nested(fi.node):
+                if isinstance(n, ast.BinOp):
+                    for side in (n.left, n.right):
+                        if self_attr(side) in nf:
+                            sites.append((n, self_attr(side)))
+            if not sites:
+                continue
+            res: Dict[int, Any] = {}
+
+            def syntactic(n, X):
+                a = f"self.{X}"
+                cur = n
+                while id(cur) in parents:
+                    par = parents[id(cur)]
+                    # short-circuit operands: `self.X is None or <use>` / `self.X is not None and <use>` / `self.X and <use>`
+                    if isinstance(par, ast.BoolOp):
+                        idx = next(i for i, v in enumerate(par.values) if v is cur)
+                        for v in par.values[:idx]:
+                            t = unparse(v)
+                            if isinstance(par.op, ast.Or) and t in (f"{a} is None", f"not {a}"):
+                                return "short-circuit operand"
+                            if isinstance(par.op, ast.And) and t in (f"{a} is not None", a):
+                                return "short-circuit operand"
+                    # assign-if-None idiom earlier in an enclosing block
+                    for name in ("body", "orelse", "finalbody"):
+                        blk = getattr(par, name, None)
+                        if isinstance(blk, list) and any(s is cur for s in blk):
+                            for s in blk[: next(i for i, s in enumerate(blk) if s is cur)]:
+                                if isinstance(s, ast.If) and unparse(s.test) in (f"{a} is None", f"not {a}") and \
+                                        any(isinstance(b, (ast.Assign, ast.AnnAssign)) and not is_none_store(b) and any(self_attr(t) == X for t in targets_of(b)) for b in s.body):
+                                    return "assign-if-None idiom"
+                    if isinstance(par, (ast.FunctionDef, ast.AsyncFunctionDef)):
+                        break
+                    cur = par
+                return None
+
+            def ev_of(node, f):
+                if isinstance(node, (ast.Assign, ast.AnnAssign, ast.AugAssign)) and not is_none_store(node) and getattr(node, "value", None) is not None:
+                    return ["set:" + self_attr(t) for t in targets_of(node) if self_attr(t)]
+                return []
+
+            def ob(node, st, f):
+                if not isinstance(node, ast.stmt):
+                    return
+                hdr = [node]
+                if isinstance(node, (ast.If, ast.While)):
+                    hdr = [node.test]
+                elif isinstance(node, (ast.For, ast.AsyncFor)):
+                    hdr = [node.iter]
+                elif isinstance(node, (ast.With, ast.AsyncWith, ast.Try, ast.FunctionDef, ast.AsyncFunctionDef)):
+                    hdr = []
+                for n, X in sites:
+                    if id(n) in res or not any(x is n for h_ in hdr for x in ast.walk(h_)):
+                        continue
+                    why = syntactic(n, X)
+                    for Y in [X] + sorted(y for y in nf if y != X and paired(X, y)):
+                        if why:
+                            break
+                        a = f"self.{Y}"
+                        if st.has_guard(f"{a} is not None", True) or st.has_guard(f"{a} is None", False) or st.has_guard(a, True) or st.has_guard(f"not {a}", False) \
+                                or (Y == X and "set:" + X in st.events):
+                            why = f"guard on self.{Y}" + ("" if Y == X else f" (paired: assigned only together with self.{X})")
+                        for g, t in st.guards:
+                            if t and Y != X and (g.startswith(f"{a} == ") or g.endswith(f" == {a}") or g.startswith(f"{a} == ") or f"{a} == " in g.split(" and ")[0]):
+                                why = f"equality guard on self.{Y} (paired: initialised to None and assigned only together with self.{X})"
+                    res[id(n)] = (n, X, why)
+            EventsDomain(prog, ev_of, ob, kill_guards_on_call=False).run(fi)
+            for n, X, why in res.values():
+                n_sites += 1
+                what = f"{fi.qualname}: `{unparse(n)[:60]}` (self.{X})"
+                key = (fi.qualname, X)
+                if why:
+                    rep.ok(RULE, what, sample=why)
+                elif key in NONE_ARITH_EXEMPT:
+                    used_exempt.add(key)
+                    rep.ok(RULE, what, nontrivial=False, sample="exempt: " + NONE_ARITH_EXEMPT[key])
+                else:
+                    rep.fail(mk_finding(prog, PROP, RULE, fi, n, f"`self.{X}` is None until it is first assigned, and nothing on this path says it has been: `{unparse(n)[:70]}` raises TypeError, "
+                                        "which is not a ValueError / ConnectionError and therefore escapes the receive loop and closes the DTLS transport",
+                                        construct=f"self.{X} may be None in `{unparse(n)[:50]}`"))
+    if n_sites < 12:
+        raise AnalysisError(f"{RULE}: only {n_sites} arithmetic uses of Optional fields found on the receive path")
